@@ -157,6 +157,8 @@ func (c *concretizer) expr(e xExpr) string {
 		return e.A
 	case "ctx":
 		return "."
+	case "nilvar":
+		return "gnil"
 	case "fail":
 		return "fail()"
 	case "err":
